@@ -170,8 +170,13 @@ def main(argv=None):
             vlist.append({"job": j.name, "obligation": ob["name"], "description": ob["description"], "at": ob["location"],
                           "replay": path, "replay_confirmed_natively": bool(confirmed)})
         ev["coverage"]["violating_obligations"] = vlist
+    seen_kf = set()
     for k in known_hits:
-        print("KNOWN-FINDING: property=%s %s [job %s obligation %s]" % (prop, k["finding"], k["job"], k["obligation"]))
+        if (k["finding"], k["job"]) in seen_kf:
+            continue
+        seen_kf.add((k["finding"], k["job"]))
+        print("KNOWN-FINDING: property=%s %s [job %s, obligations %s]" % (prop, k["finding"], k["job"],
+              ", ".join(h["obligation"] for h in known_hits if h["job"] == k["job"] and h["finding"] == k["finding"])))
     ev["wall_s"] = round(time.time() - t0, 2)
     if code == 2 and not violations:
         ev["level"] = "other"
